@@ -192,6 +192,13 @@ def decode(tree, c):
 
 
 # ---------------------------------------------------------------- oracle
+def _norm_md(md):
+    """a reader's view of metadata: entries all empty = no metadata; an entry without metadata = {}"""
+    if md is None or all(not x for x in md):
+        return None
+    return [x if x else {} for x in md]
+
+
 def _ref_filter(spec, axis, keepmask):
     s = T.spec_content(spec)
     idx = [i for i, b in enumerate(keepmask) if b]
@@ -204,6 +211,7 @@ def _ref_filter(spec, axis, keepmask):
         out['sids'] = [s['sids'][i] for i in idx]
         out['mat'] = [[row[j] for j in idx] for row in s['mat']]
         out['smd'] = None if s['smd'] is None else [s['smd'][i] for i in idx]
+    out['omd'], out['smd'] = _norm_md(out['omd']), _norm_md(out['smd'])
     return canon(T.norm_snap(out))
 
 
@@ -253,7 +261,8 @@ def oracle(c, obs):
         s = T.spec_content(spec)
         n, m = c['n'], c['m']
         ref = dict(s, oids=s['oids'][:n], sids=s['sids'][:m], mat=[r[:m] for r in s['mat'][:n]],
-                   omd=None if s['omd'] is None else s['omd'][:n], smd=None if s['smd'] is None else s['smd'][:m])
+                   omd=_norm_md(None if s['omd'] is None else s['omd'][:n]),
+                   smd=_norm_md(None if s['smd'] is None else s['smd'][:m]))
         if obs[0] != 'ok' or obs[1] != canon(T.norm_snap(ref)):
             fails.append('head(%d,%d) is not the leading block' % (n, m))
     return fails
@@ -262,7 +271,7 @@ def oracle(c, obs):
 # ---------------------------------------------------------------- generation
 def gen_case(rng, spec=None):
     spec = spec or T.rand_spec(rng, max_r=4, max_c=4, values=rng.choice(['counts', 'small', 'signed', 'dyadic']),
-                               md=rng.choice(['none', 'group', 'group', 'text', 'obs', 'samp']), ttype=rng.choice([None, 'OTU table']))
+                               md=rng.choice(['none', 'group', 'group', 'text', 'obs', 'samp', 'partial', 'partial']), ttype=rng.choice([None, 'OTU table']))
     axis = rng.choice(['observation', 'sample'])
     ids = spec['oids'] if axis == 'observation' else spec['sids']
     r = rng.random()
